@@ -71,6 +71,43 @@ async fn run_one(b: &DataBroker, paths: &[String], api: Tok, pat: String) -> Vec
                 }
             }
         }
+        5 => {
+            // two entries in one request: a path that matches (the first signal), then the pattern
+            let anchor = paths.iter().find(|p| p.contains('.')).or(paths.first()).cloned().unwrap_or_default();
+            let anchor_idx = idx_of(&anchor);
+            let r = p1::val_server::Val::get(
+                b,
+                req(
+                    p1::GetRequest {
+                        entries: vec![
+                            p1::EntryRequest { path: anchor.clone(), view: p1::View::CurrentValue as i32, fields: vec![] },
+                            p1::EntryRequest { path: pat.clone(), view: p1::View::CurrentValue as i32, fields: vec![] },
+                        ],
+                    },
+                    Some(&perms),
+                ),
+            )
+            .await;
+            match r {
+                Err(s) => (grpc_status(&s), vec![]),
+                Ok(resp) => {
+                    let resp = resp.into_inner();
+                    let st = match resp.errors.iter().find(|e| e.path == pat).and_then(|e| e.error.as_ref()) {
+                        Some(e) => e.code as Tok,
+                        None => 0,
+                    };
+                    let mut ids: Vec<Tok> = resp.entries.iter().map(|e| idx_of(&e.path)).collect();
+                    // the anchor's own entry (if the anchor entry was served)
+                    let anchor_failed = anchor != pat && resp.errors.iter().any(|e| e.path == anchor);
+                    if !anchor_failed {
+                        if let Some(pos) = ids.iter().position(|x| *x == anchor_idx) {
+                            ids.remove(pos);
+                        }
+                    }
+                    (st, ids)
+                }
+            }
+        }
         1 => {
             let r = p1::val_server::Val::subscribe(
                 b,
